@@ -183,6 +183,7 @@ func NewEngine(cfg Cfg) *Engine {
 	e.lstates = make([]*LState, 1<<21)
 	e.W = NewWorld(cfg.C, cfg.Desc, cfg.Invalid)
 	e.W.SloppyValidator = cfg.Sloppy
+	e.W.MaxCommits = max(cfg.Heights, 1)
 	byz := map[int]bool{}
 	for _, b := range cfg.Byz {
 		byz[b] = true
@@ -243,14 +244,16 @@ func mask(to []int) uint32 {
 // ---------------------------------------------------------------- local states
 
 type liveNode struct {
-	n    *LNode
-	sent map[Sent]bool
+	n         *LNode
+	sent      map[Sent]bool
+	startViol []Violation
 }
 
 func (e *Engine) fresh(node int) *liveNode {
 	ln := &liveNode{n: NewLNode(e.W, node), sent: map[Sent]bool{}}
 	obs := ln.n.Start()
 	e.absorb(ln, obs)
+	ln.startViol = obs.Viol
 	return ln
 }
 
@@ -545,6 +548,11 @@ func (e *Engine) Init() GKey {
 	for s, node := range e.Honest {
 		ln := e.fresh(node)
 		g[s] = int32(e.internState(ln, nil))
+		for _, v := range ln.startViol { // violations of the very first step (the consumer's initial sync): no event leads to them
+			if e.reportable(v) && !e.Cfg.Skip[v.FP()] {
+				e.LocalFound = append(e.LocalFound, LocalFound{v, node, nil})
+			}
+		}
 	}
 	d := e.Cfg.D
 	if d < 0 {
